@@ -146,6 +146,8 @@ WITNESSES = {
         "NEW 1 1 1 0 1", "X root", "GC", "B 4 0 raw", "M 4 1 0 1 0", "GC", "B 2 0 raw", "GC"]),
     "F41-child-record-without-content": (["gc", "gcdir"], {"C06"}, [
         "NEW 0 0 1 0 0", "B 1 0 oth", "B 6 0 img 1", "M 6 1 0 1 0", "K 5 1", "GC", "GC"]),
+    "W1-untag-puts-repository-back-into-window": (["gcpass", "gcpassdir"], {"C06"}, [
+        "NEW 1 0 1 0 0", "R r1 healthy 0", "R r2 healthy a999999999", "T r1", "T r2", "PASS", "U r1", "PASS"]),
     "F7-sha384-directory": (["gcdir"], {"C06"}, [
         "NEW 0 0 1 0 1", "B 8 0 raw", "GC", "GC"]),
     "F6-pass-stops-at-failing-repository": (["gcpassdir"], {"C06"}, [
